@@ -73,6 +73,21 @@ pub const FOLD_PATTERNS: &[&str] = &[
     r"/É/(?:[a-z]+)",
     r"/É/(?:[0-9]+)",
     r"(?:[^/]+)\.example",
+    // two patterns sharing a plain ASCII node prefix whose letters have non-ASCII case forms (long s, Kelvin sign)
+    r"/sk/(?:[a-z]+)",
+    r"/sk/(?:[0-9]+)",
+];
+
+/// Perl classes and their negations (equal up to the case of the escape), classes that are Unicode-aware, a counted repetition
+/// whose compiled program is megabytes large, a literal prefix whose regex source is longer than its text
+pub const CLASS_ESCAPE_PATTERNS: &[&str] = &[
+    r"/u/(?:\d+)",
+    r"/u/(?:\D+)",
+    r"/u/(?:\w+)/x",
+    r"/u/(?:\W+)/x",
+    r"/x\-y\-z/(?:[0-9]+)",
+    r"/x\-y\-z/(?:[a-z]+)/e",
+    r"/x\-y\-z/(?:[a-z]+)",
 ];
 
 /// marker expressions whose character classes contain parentheses (own signature family)
@@ -97,6 +112,9 @@ pub const HAYSTACKS: &[&str] = &[
     "/w/q/c0", "/w/q/c1", "/w/q/c4", "/w/q/c8", "/w/q/c9", "/w/q/c10", "/W/Q/C9",
     "/a/c/q/d", "/a/c/q/e", "/a/c/q/e/f", "/x/q", "/y/q", "/x/y/7", "/x/y",
     "/é/b", "/É/b", "/é/7", "a\nb.example", "/É/b\n",
+    "/s/a/p", "/s/ab/p", "/s/abcdefghij/p", "/s/abc/q",
+    "/u/42", "/u/ab", "/u/٤٢", "/u/é/x", "/u/-/x", "/u/a1/x", "/h/abc", "/h/é-1", "/x-y-z/7", "/x-y-z/a", "/x-y-z/a/e", "/x-y-z/",
+    "/ſk/b", "/s\u{212a}/1", "/SK/b", "/sk/7",
     "/ς/b", "/Σ/b", "/σ/b", "/σκ/1", "/ΣΚ/1", "/ςκ/1", "/ſt/b", "/st/b", "/ST/b", "/µ/b", "/μ/b", "/Μ/b", "/K/b", "/k/b", "/\u{212a}/b",
 ];
 
@@ -642,6 +660,23 @@ fn configs(tier: Tier) -> Vec<(Config, usize)> {
             tier.pick(3, 4),
         ));
     }
+    // a node with 10 children that all BEGIN with a group (the character after the node prefix is '(' for every child): prefilled,
+    // then every history incl. storing an existing (pattern, id) again
+    for ignore_case in [false, true] {
+        out.push((
+            Config { set: "wide-markers".into(), patterns: (1..=10).map(|i| format!(r"/s/(?:[a-z]{{{i}}})/p")).collect(), unique: false, ignore_case, second_ids: false, cache_ops: true, insert_only: false, prefill: 10 },
+            tier.pick(2, 3),
+        ));
+        out.push((
+            Config { set: "class-escapes".into(), patterns: CLASS_ESCAPE_PATTERNS.iter().map(|s| s.to_string()).collect(), unique: false, ignore_case, second_ids: false, cache_ops: true, insert_only: false, prefill: 0 },
+            tier.pick(3, 4),
+        ));
+    }
+    // an expression whose compiled program is megabytes large (a set of its own: building it costs milliseconds per lookup)
+    out.push((
+        Config { set: "heavy".into(), patterns: vec![r"/h/(?:[\p{L}\p{N}\-]{1,60})".to_string(), r"/h/(?:[0-9]+)/x".to_string()], unique: false, ignore_case: false, second_ids: false, cache_ops: true, insert_only: false, prefill: 0 },
+        2,
+    ));
     if tier == Tier::Thorough {
         // deeper, insert/remove only (no cache flags in the state): all insertion orders of every <=6-subset
         let small: Vec<String> = MAIN_PATTERNS[..8].iter().map(|s| s.to_string()).collect();
@@ -857,7 +892,7 @@ pub fn run(tier: Tier) -> i32 {
         .set("samples", json!(samples))
         .set("evaluations", json!(find_checks))
         .set("distinct_nontrivial", json!(outcomes))
-        .set("rule", json!("evaluations = find() comparisons (state x haystack); distinct_nontrivial = distinct vectors of find results over the 45 haystacks, summed over configurations; non-empty expected finds counted separately"))
+        .set("rule", json!("evaluations = find() comparisons (state x haystack); distinct_nontrivial = distinct vectors of find results over the haystacks, summed over configurations; non-empty expected finds counted separately"))
         .set("nonempty_expected_finds", json!(nonempty))
         .set("max_tree_depth_seen", json!(tree_depth))
         .set("haystacks", json!(HAYSTACKS.len()))
